@@ -17,7 +17,7 @@ from .. import monitors as M
 from .. import refsem as R
 from .. import values as V
 
-FRACS = [1.0, 1.0, 0.9, 0.5, 0.33, 0.1]
+FRACS = [1.0, 1.0, 0.9, 0.5, 0.33, 0.1, 0.75, 0.95, 0.25, 0.66, 0.05, 0.531, 0.899]
 
 
 def check_term(sh, which, term, width, frac, strat):
@@ -68,9 +68,9 @@ def configs(rng, term, n):
             w = rng.choice(ws) + rng.choice([0, 0, 0, 1, 2, 3, 5])
             f = 1.0 if rng.random() < 0.6 else rng.choice(FRACS)
         else:
-            w = rng.randint(1, 40)
+            w = rng.randint(1, 40) if rng.random() < 0.8 else rng.randint(41, 120)
             f = rng.choice(FRACS)
-        out.append((min(60, max(1, w)), f))
+        out.append((min(120, max(1, w)), f))
     return out
 
 
